@@ -9,6 +9,17 @@ verus! {
 
 //@@include common/textsize.rs
 
+pub mod lsp_types {
+    use vstd::prelude::*;
+    verus!{
+    // lsp_types::{Position, Range}, transcribed field by field (same shim as unit c20_config)
+    #[derive(Clone, Copy, PartialEq, Eq)]
+    pub struct Position { pub line: u32, pub character: u32 }
+    #[derive(Clone, Copy, PartialEq, Eq)]
+    pub struct Range { pub start: Position, pub end: Position }
+    }
+}
+
 // ---------------------------------------------------------------------------------------------
 // property vocabulary (from the statement of C22, not from the code)
 // ---------------------------------------------------------------------------------------------
@@ -78,6 +89,13 @@ pub open spec fn offset_ok(li: &LineIndex, b: Seq<u8>, line: int, col: int, o: i
     // … otherwise clamped to the end of the line (o == ce)
 }
 
+// trusted std contract: `impl<I: SliceIndex<str>> Index<I> for str { fn index(&self, i: I) -> &I::Output { i.index(self) } }`
+// (core/src/str/traits.rs). vstd specifies `SliceIndex<str>::index` for the range types and the
+// *precondition* of `<str as Index<I>>::index` (IndexSpec::index_req), but -- unlike for `[T]` -- not this
+// forwarding postcondition. Stated exactly as vstd states it for `<[T] as Index<I>>::index`.
+pub assume_specification<I: core::slice::SliceIndex<str>>[ <str as core::ops::Index<I>>::index ](s: &str, index: I) -> (output: &<I as core::slice::SliceIndex<str>>::Output)
+    ensures call_ensures(<I as core::slice::SliceIndex<str>>::index, (index, s), output);
+
 // trusted std contracts introduced by rewrite rules
 #[verifier::external_body]
 pub fn vx_partition_point_le(v: &Vec<u32>, y: u32) -> (r: usize)
@@ -113,6 +131,21 @@ impl LineIndex {
     //@@ LineIndex::get_line_col
     //@@ LineIndex::get_offset
     //@@ LineIndex::get_col_offset_at_line
+}
+
+// LuaDocument (crates/emmylua_code_analysis/src/vfs/document.rs), projected to `text` and `line_index`.
+// Representation invariant (established by Vfs: the index is `LineIndex::parse(text)`), stated as a
+// precondition of every method: wf(self.line_index, self.text.spec_bytes()).
+//@@ LuaDocument
+
+impl<'a> LuaDocument<'a> {
+    //@@ LuaDocument::get_line_col
+    //@@ LuaDocument::get_offset
+    //@@ LuaDocument::get_col_offset_at_line
+    //@@ LuaDocument::get_line_range
+    //@@ LuaDocument::to_lsp_range
+    //@@ LuaDocument::to_lsp_position
+    //@@ LuaDocument::to_rowan_range
 }
 
 } // verus!
